@@ -8,8 +8,8 @@ from pathlib import Path
 from urllib.parse import urljoin, urlparse
 from urllib.request import url2pathname
 
-from extract import fetch_sites
-from harness import c20_bg, c20_doc, c20_svg, docs
+from extract import fetch_sites, url_tables
+from harness import c20_bg, c20_doc, c20_paint, c20_svg, docs
 from harness import c20_res as R
 from harness.c20_res import Spec, enc
 from vlib import sx
@@ -216,9 +216,10 @@ def matcher_rules(css):
 
 class C20(PropCheck):
     id = 'C20'
-    extractors = (fetch_sites.generate,)
+    extractors = (fetch_sites.generate, url_tables.generate)
     modules = ('WpModel.Props.C20', 'WpModel.Props.C20Url', 'WpModel.Props.C20Trace', 'WpModel.Props.C20Absent', 'WpModel.Props.C20Bg',
-               'WpModel.Props.C20Svg', 'WpModel.Witness.C20')
+               'WpModel.Props.C20Svg', 'WpModel.Props.C20Paint', 'WpModel.Props.C20Tables',
+               'WpModel.Witness.C20')
     trusted_base = (
         'modelled, not verified: urls.fetch, images.get_image_from_uri / RasterImage.__init__ (data source), '
         'html.handle_img/embed/object/svg, css find_stylesheets + @import/@media/@font-face branches of preprocess_stylesheet, '
@@ -263,6 +264,7 @@ class C20(PropCheck):
         self.sec_attachments(run)
         c20_bg.section(run)
         c20_svg.section(run)
+        c20_paint.section(run)
         c20_doc.section(run)
         self.sec_traces(run)
         self.branch_histogram(run, store)
@@ -883,6 +885,8 @@ class C20(PropCheck):
             return c20_bg.judge(meta)
         if sec == 'svg-nesting':
             return c20_svg.judge(d)
+        if sec == 'box-paint':
+            return c20_paint.judge(meta)
         if sec == 'html-handlers':
             expected_failed = {'img': [f'[alt={enc(meta["alt"])}]' if meta['alt'] else '[]'], 'embed': ['[]'],
                                'object': ['[fallback]']}[meta['which']]
@@ -977,6 +981,8 @@ class C20(PropCheck):
             return 'network access behind the fetcher: ' + impl.split('NETWORK=')[1][:200]
         if 'absent=DIFF' in impl:
             return 'the result differs from the result of the document without the failed references'
+        if 'absent=PAINT-DIFF' in impl:
+            return c20_doc.PAINT_DIFF
         if meta.get('svg_only_escapes') and ' render=ok' in impl and ' write=err:' in impl and 'FileNotFoundError' not in impl:
             return ('write_pdf raised ' + impl.split(' write=err:')[1].split(' ')[0] + ' because a resource referenced from '
                     'inside an SVG image could not be read: drawing an SVG must absorb the failures of its references')
@@ -1010,6 +1016,8 @@ class C20(PropCheck):
             return c20_bg.judge(meta)
         if sec == 'svg-nesting':
             return c20_svg.rejudge(meta)
+        if sec == 'box-paint':
+            return c20_paint.judge(meta)
         if sec == 'fetch':
             from weasyprint.urls import fetch
             body = meta.get('body_json')
